@@ -146,15 +146,47 @@ pub struct Circ {
 }
 
 impl Circ {
+    /// The quizx circuit with this gate list.  How the list is laid out in quizx's gate deque is
+    /// not part of any contract, so it is varied as a function of the circuit: two thirds of the
+    /// circuits are built by `push` alone, the rest from a split point outwards with
+    /// `push_front` / `push_back` (a wrapped ring buffer).
     pub fn to_quizx(&self) -> Circuit {
+        use std::hash::{Hash, Hasher};
+        let mut h = std::collections::hash_map::DefaultHasher::new();
+        self.hash(&mut h);
+        let x = h.finish();
+        if self.gates.len() >= 2 && x % 3 == 0 {
+            self.to_quizx_layout(((x >> 8) % (self.gates.len() as u64 + 1)) as usize)
+        } else {
+            self.to_quizx_layout(0)
+        }
+    }
+
+    fn qgate(g: &MGate) -> Gate {
+        Gate::new_with_phase_and_vars(g.k.gtype(), g.qs.clone(), to_qphase(g.phase), Parity::new(g.vars.clone(), false))
+    }
+
+    /// gates[split..] appended with `push_back`, gates[..split] prepended with `push_front`,
+    /// alternating between the two ends
+    pub fn to_quizx_layout(&self, split: usize) -> Circuit {
         let mut c = Circuit::new(self.n);
-        for g in &self.gates {
-            c.push(Gate::new_with_phase_and_vars(
-                g.k.gtype(),
-                g.qs.clone(),
-                to_qphase(g.phase),
-                Parity::new(g.vars.clone(), false),
-            ));
+        let split = split.min(self.gates.len());
+        if split == 0 {
+            for g in &self.gates {
+                c.push(Self::qgate(g));
+            }
+            return c;
+        }
+        let (mut lo, mut hi) = (split, split);
+        while lo > 0 || hi < self.gates.len() {
+            if lo > 0 {
+                lo -= 1;
+                c.push_front(Self::qgate(&self.gates[lo]));
+            }
+            if hi < self.gates.len() {
+                c.push_back(Self::qgate(&self.gates[hi]));
+                hi += 1;
+            }
         }
         c
     }
